@@ -177,6 +177,66 @@ def run(ctx):
                 s7.violate({"rom_type": romname, "addr": hex(a)}, exp, got, "Program.get_physical_address differs from the mapped file offset (or does not refuse a RAM / unmapped address)")
     s7.sample({"rom_type": "low_rom", "addr": "0x018000", "expected": "some 32768"})
     streams.append(s7)
+    # ---------------- the spelling of a .map directive (attributes over several lines, any order) ----------------
+    s8 = core.Stream("S1-map-spelling", "a user .map written on one line and the same attributes spread over several lines / in another order, assembled in fresh Programs: the resulting bus gives the same offset / refusal / writable flag for sampled addresses (RAM ranges stay RAM); non-trivial = distinct (attribute order, line breaks)")
+    from a816.writers import Writer
+
+    class _W(Writer):
+        def begin(self):
+            pass
+
+        def end(self):
+            pass
+
+        def write_block_header(self, block, block_address):
+            pass
+
+        def write_block(self, block, block_address):
+            pass
+
+    def bus_view(src_):
+        with impl.quiet():
+            p2 = Program()
+            try:
+                err_ = p2.assemble_string_with_emitter(src_, "m.s", _W())
+            except Exception:  # noqa: BLE001  (a refusal, however it is reported, is not a different bus)
+                return ("rejected",)
+            if err_:
+                return ("rejected",)
+            bus = p2.resolver.get_bus()
+            out = []
+            for a_ in (0x7E2000, 0x7F0000, 0x008000, 0x108123, 0x3FFFFF, 0x400000, 0xFE2000):
+                try:
+                    ad = bus.get_address(a_)
+                    out.append((ad.physical, bool(ad.writable)))
+                except Exception as e_:  # noqa: BLE001
+                    out.append(("err", type(e_).__name__))
+            return tuple(out)
+    for i in range(24 if tier == "quick" else 300):
+        ram = [("identifier", "2"), ("bank_range", "0x7e,0x7f"), ("addr_range", "0,0xffff"), ("mask", "0x10000"), ("writable", "1")]
+        rom = [("identifier", "1"), ("bank_range", "0x00,0x3f"), ("addr_range", "0x8000,0xffff"), ("mask", "0x8000")]
+        if rng.random() < 0.4 and i % 3 != 0:
+            ram.append(("mirror_bank_range", "0xfe,0xff"))
+        one = ".map " + " ".join(f"{k}={v}" for k, v in rom) + "\n.map " + " ".join(f"{k}={v}" for k, v in ram) + "\n*=0x008000\n.db 1\n"
+        order = ram[:1] + rng.sample(ram[1:], len(ram) - 1) if rng.random() < 0.5 else list(ram)
+        seps = [rng.choice([" ", " ", "\n", "\n    ", "  \n\t"]) for _ in order]
+        if i % 3 == 0:
+            # exactly one line break, in front of one attribute (every attribute in turn)
+            order = [x for x in ram if x[0] != "mirror_bank_range"]
+            k_ = 1 + (i // 3) % (len(order) - 1)
+            seps = [("\n  " if j + 1 == k_ else " ") for j in range(len(order))]
+        multi = ".map " + " ".join(f"{k}={v}" for k, v in rom) + "\n.map " + "".join(f"{k}={v}{sep}" for (k, v), sep in zip(order, seps)).rstrip() + "\n*=0x008000\n.db 1\n"
+        a_, b_ = bus_view(one), bus_view(multi)
+        s8.cases += 1
+        s8.nontrivial.add((tuple(k for k, _ in order), tuple("nl" if "\n" in x else "sp" for x in seps)))
+        if a_ == ("rejected",):
+            s8.violate({"src": one}, "assembled", "rejected", "a plain single-line .map configuration is rejected")
+        elif b_ != a_ and b_ != ("rejected",):
+            s8.violate({"one_line": one, "several_lines": multi}, a_, b_, "the same .map attributes spread over several lines give a different bus (offset / refusal / writable flag)")
+        elif b_ == ("rejected",):
+            s8.count("multi-line-rejected")
+    s8.sample({"several_lines": ".map identifier=2 bank_range=0x7e,0x7f addr_range=0,0xffff mask=0x10000\n writable=1"})
+    streams.append(s8)
 
     # ---------------- S1c: user .map configurations ------------------------------------------------
     s3 = core.Stream("S1-usermap", "random .map configurations (disjoint and overlapping bank ranges, mirrors, 32K/64K, RAM) built through the real Bus.map vs model; oracle on disjoint configs: Spec.offset of the declared range; non-trivial = distinct configurations")
